@@ -123,9 +123,12 @@ mod verif_kani {
         assert!((sign == Sign::Minus) == (bits >> 63 == 1));
     }
 
-    // ------------------------------------------------------------------ C05: parser stand-in
-    const MAXLEN: usize = 4;
-    static mut SEEN: [u8; 8] = [0; 8];
+    // ------------------------------------------------------------------ C05: parser stand-in (BOUNDED)
+    // All strings of length <= 3 over the alphabet of the property's exhaustive quantifier {0,1,7,+,-,.,e,E,_,x,space},
+    // through the real from_str_radix with the big-integer parser replaced by its assumed grammar.  Three harnesses check
+    // one aspect each (CBMC slices away what an assertion does not depend on): acceptance, scale, digits handed over.
+    const MAXLEN: usize = 3;
+    static mut SEEN: [u8; 4] = [0; 4];
     static mut SEEN_LEN: usize = 0;
     static mut SEEN_CALLS: usize = 0;
 
@@ -136,7 +139,7 @@ mod verif_kani {
             SEEN_CALLS += 1;
             SEEN_LEN = b.len();
             let mut k = 0;
-            while k < b.len() && k < 8 { SEEN[k] = b[k]; k += 1; }
+            while k < b.len() && k < 4 { SEEN[k] = b[k]; k += 1; }
         }
         let mut i = 0usize;
         if i < b.len() && (b[i] == b'+' || b[i] == b'-') { i += 1; }
@@ -151,8 +154,8 @@ mod verif_kani {
     fn stub_format(_args: core::fmt::Arguments) -> String { String::new() }
 
     /// reference recogniser for the numeral grammar of the property statement, on the bytes b[..n].
-    /// Returns None (reject) or Some((expected digit string handed to the integer parser, its length, scale)).
-    fn oracle(b: &[u8; MAXLEN], n: usize) -> Option<([u8; 8], usize, i128)> {
+    /// Returns None (reject) or Some((expected string handed to the integer parser, its length, scale)).
+    fn oracle(b: &[u8; MAXLEN], n: usize) -> Option<([u8; 4], usize, i128)> {
         // split at first e/E
         let mut epos = n;
         let mut i = 0;
@@ -170,8 +173,8 @@ mod verif_kani {
             }
             if neg { exp = -exp; }
         }
-        // base part b[..epos]: optional sign, then digits / '_' with at most one '.', first of the digit run is a digit
-        let mut out = [0u8; 8];
+        // base part b[..epos]: optional sign, then digits / '_' with at most one '.', the first of the run is a digit
+        let mut out = [0u8; 4];
         let mut m = 0usize;
         let mut k = 0usize;
         if k < epos && (b[k] == b'+' || b[k] == b'-') { out[m] = b[k]; m += 1; k += 1; }
@@ -185,7 +188,7 @@ mod verif_kani {
                 if seen_dot { return None; }
                 seen_dot = true;
             } else if c.is_ascii_digit() || (c == b'_' && !first) {
-                if m < 8 { out[m] = c; m += 1; }
+                if m < 4 { out[m] = c; m += 1; }
                 if seen_dot && c != b'_' { frac_digits += 1; }
                 first = false;
                 any = true;
@@ -198,53 +201,83 @@ mod verif_kani {
         Some((out, m, frac_digits - exp))
     }
 
-    fn parse_upto(len: usize) {
+    fn parse_upto(len: usize, what: u8) {
         let bytes: [u8; MAXLEN] = kani::any();
         let n: usize = kani::any();
         kani::assume(n <= len);
+        let mut q = 0;
+        while q < MAXLEN {
+            let c = bytes[q];
+            kani::assume(c == b'0' || c == b'1' || c == b'7' || c == b'+' || c == b'-' || c == b'.' || c == b'e' || c == b'E' || c == b'_' || c == b'x' || c == b' ');
+            q += 1;
+        }
         if let Ok(s) = core::str::from_utf8(&bytes[..n]) {
             unsafe { SEEN_CALLS = 0; }
             let r = BigDecimal::from_str_radix(s, 10);
-            match oracle(&bytes, n) {
-                None => assert!(r.is_err()),
-                Some((digits, m, scale)) => {
-                    assert!(r.is_ok());
-                    let v = r.unwrap();
+            let want = oracle(&bytes, n);
+            if what == 0 {
+                // acceptance: a string is accepted exactly when it is a numeral of the grammar
+                assert!(r.is_ok() == want.is_some());
+            } else if let (Ok(v), Some((digits, m, scale))) = (r, want) {
+                if what == 1 {
+                    // scale = fraction digits - exponent
                     assert!(v.scale as i128 == scale);
+                } else {
+                    // the integer parser is handed exactly the sign and digits (with '_') of the numeral, without the '.'
                     unsafe {
                         assert!(SEEN_CALLS == 1 && SEEN_LEN == m);
                         let mut k = 0;
-                        while k < m && k < 8 { assert!(SEEN[k] == digits[k]); k += 1; }
+                        while k < m && k < 4 { assert!(SEEN[k] == digits[k]); k += 1; }
                     }
                 }
             }
-            // any radix other than 10 is an error
-            let radix: u32 = kani::any();
-            kani::assume(radix != 10);
-            assert!(BigDecimal::from_str_radix(s, radix).is_err());
-        } else {
-            // non-UTF-8 byte slices: parse_bytes yields None
-            assert!(BigDecimal::parse_bytes(&bytes[..n], 10).is_none());
         }
     }
 
     #[kani::proof]
-    #[kani::unwind(7)]
+    #[kani::unwind(6)]
     #[kani::stub(<BigInt as Num>::from_str_radix, stub_bigint_from_str_radix)]
     #[kani::stub(alloc::fmt::format, stub_format)]
-    fn parse_small_2() { parse_upto(2) }
+    fn parse_small_2() { parse_upto(2, 0) }
 
     #[kani::proof]
-    #[kani::unwind(7)]
+    #[kani::unwind(6)]
     #[kani::stub(<BigInt as Num>::from_str_radix, stub_bigint_from_str_radix)]
     #[kani::stub(alloc::fmt::format, stub_format)]
-    fn parse_small_3() { parse_upto(3) }
+    fn parse_small_3() { parse_upto(3, 0) }
 
     #[kani::proof]
-    #[kani::unwind(8)]
+    #[kani::unwind(6)]
     #[kani::stub(<BigInt as Num>::from_str_radix, stub_bigint_from_str_radix)]
     #[kani::stub(alloc::fmt::format, stub_format)]
-    fn parse_small_4() { parse_upto(4) }
+    fn parse_small_3_scale() { parse_upto(3, 1) }
+
+    #[kani::proof]
+    #[kani::unwind(6)]
+    #[kani::stub(<BigInt as Num>::from_str_radix, stub_bigint_from_str_radix)]
+    #[kani::stub(alloc::fmt::format, stub_format)]
+    fn parse_small_3_digits() { parse_upto(3, 2) }
+
+    #[kani::proof]
+    #[kani::unwind(4)]
+    #[kani::stub(alloc::fmt::format, stub_format)]
+    fn parse_radix_not_10() {
+        let bytes: [u8; 2] = kani::any();
+        if let Ok(s) = core::str::from_utf8(&bytes[..]) {
+            let radix: u32 = kani::any();
+            kani::assume(radix != 10);
+            assert!(BigDecimal::from_str_radix(s, radix).is_err());
+        }
+    }
+
+    #[kani::proof]
+    #[kani::unwind(4)]
+    fn parse_bytes_non_utf8() {
+        let bytes: [u8; 2] = kani::any();
+        if core::str::from_utf8(&bytes[..]).is_err() {
+            assert!(BigDecimal::parse_bytes(&bytes[..], 10).is_none());
+        }
+    }
 }
 // private parsing helpers are reached through these in-crate re-exports (harness only)
 #[cfg(kani)] pub(crate) fn parsing_split_f32(f: f32) -> (u32, i64, Sign) { parsing::split_f32_for_kani(f) }
